@@ -387,6 +387,11 @@ def families():
     # Bucklin / Oklahoma
     F.append(Family('bucklin', 'ranked', lambda: vs.PreferenceAddition()))
     F.append(Family('oklahoma', 'ranked', lambda: vs.PreferenceAddition(coefficients=lambda i: Fraction(1, i + 1))))
+    # the same rules with shared ranks counted whole (split_equal_rankings=False: every member of a shared rank gets the full count
+    # of the rank's place and the ballot is one place shorter per shared rank)
+    F.append(Family('bucklin_whole', 'ranked', lambda: vs.PreferenceAddition(split_equal_rankings=False)))
+    F.append(Family('oklahoma_whole', 'ranked',
+                    lambda: vs.PreferenceAddition(coefficients=lambda i: Fraction(1, i + 1), split_equal_rankings=False)))
     # positional
     for nm, mk in [('borda', lambda: rs.Borda()), ('borda0', lambda: rs.Borda(base=0)), ('dowdall', lambda: rs.Dowdall()),
                    ('geometric', lambda: rs.Geometric()), ('modified_borda', lambda: rs.ModifiedBorda()),
